@@ -11,6 +11,8 @@ PROOF_NOTE = ('trusted base: the VC generator engine/pyvc (own, ~2k lines; mitig
 BND = ('BOUNDED stand-in only (no obligation discharged for all inputs yet): the property\'s contract is executed on the real functions over exhaustively '
        'enumerated small scopes with independent oracles; bounds are stated in the evidence. ')
 BND_NOTE = 'trusts the oracles in checks/bounded/%s.py and the enumerators of engine/graphs.py; nothing is proved beyond the stated bounds'
+LX = (' The extraction (engine/lean/extract.py) is mechanical and re-done from /repo on every run; it drops float rounding (reals), dtype, decorators, copies/aliasing '
+      '(value semantics), x/0 conventions; trusted: the extractor, Lean kernel, Mathlib.')
 CLAIMS = {
  'C01': ('proof',
          'Deductive: for randmio_und/_dir, randmio_und/_dir_connected, latmio_und/_dir, latmio_und/_dir_connected and randomize_graph_partial_und the whole function '
@@ -89,8 +91,34 @@ CLAIMS = {
          'directed graphs n<=3/4 and undirected n<=4/5 with lengths {0,1,2}, tie palettes, log/inv transforms; navigation_wu is bounded only.',
          PROOF_NOTE + ' The producer contract FloydConsistent is an ASSUMED contract in the proved part (checked by the bounded tier on the producer).',
          'pyvc + z3 for the consumer against an abstract producer contract; producer contract and navigation checked at run time on exhaustive small scopes (bounded)', '5/C12'),
+ 'C09': ('proof',
+         'numpy->Lean extraction of the REAL source of clustering_coef_bd/wd/wu and transitivity_bu/bd/wu/wd on every run, and stored Lean proofs (all n, all real matrices; cuberoot as an abstract '
+         'cbrt with cbrt x ^ 3 = x) that each value equals its triple-enumeration definition: Fagiolo numerators (1/2) sum_{j,h} (a_ij+a_ji)(a_jh+a_hj)(a_hi+a_ih) and denominators K(K-1)-2 K_bi, Onnela '
+         'intensities, the masking clause (no triangle => exactly 0), transitivity = ratio of TOTALS with no per-node masking (11 theorems). clustering_coef_bu and clustering_coef_wu_sign (loops) and the '
+         '[0,1] range clause are bounded only (pure-Python triple enumeration oracles on all graphs n<=5/4, weighted palettes, signed).',
+         'A theorem that stops checking against the re-extracted definition is the reported obligation. The extraction (engine/lean/extract.py) is mechanical and re-done from /repo on every run; it drops float rounding (reals), dtype, decorators, copies/aliasing (value semantics), x/0 conventions; trusted: the extractor, Lean kernel, Mathlib.',
+         'mechanical numpy->Lean extraction + Lean 4/Mathlib proofs of the definitional identities; bounded triple-enumeration oracle for loop-based routines', '5/C09'),
+ 'C10': ('exploration',
+         'Partly deductive: Lean proofs over the extracted real source (all n) of 11 reductions: strengths = degrees on 0/1 input (und, dir), in = out = degree on symmetric input, '
+         'clustering_coef_wd = _bd and transitivity_wd = _bd on 0/1 input, _wd = _wu on symmetric input, transitivity_wu = _bu and _bd = _bu on symmetric 0/1 input. The loop-based pairs '
+         '(distance_wei/bin, betweenness, edge betweenness, efficiency global/local, assortativity, clustering_coef_wu/bu and bd/bu, ignores-weights routines) are BOUNDED only: both routines evaluated on the '
+         'same matrix for all 0/1 matrices n<=3/5 and symmetric weighted matrices n<=5. Level claimed is exploration because most pairs named in the property are bounded.',
+         BND_NOTE % 'C10' + LX, 'Lean proofs for the algebraic pairs; pairwise comparison on exhaustive small scopes (bounded) for the loop-based pairs', '5/C10'),
+ 'C04': ('exploration',
+         'Partly deductive: Lean proofs over the extracted real source (all n, every permutation sigma of Fin n) of renumbering equivariance/invariance for 16 algebraic measures (degrees, strengths, densities, '
+         'clustering_coef_bd/wd/wu, four transitivities, given-partition modularity_und/_dir) — 17 theorems. All loop-based, LAPACK-based and tie-breaking measures (71 registry entries: distances, '
+         'efficiency, betweenness, cores, rich club, assortativity, PageRank, eigenvector/subgraph centrality, matching index, gtom, edge overlap, flow coefficient, participation, z-score, components ...) are '
+         'BOUNDED only: all adjacent transpositions on relabelling-closed exhaustive sets (undirected n<=5, directed n<=3), weighted/signed variants, symmetric graphs with repeated eigenvalues. Level claimed '
+         'is exploration because the property quantifies over every measure.',
+         BND_NOTE % 'C04' + LX, 'Lean equivariance proofs for algebraic measures; exhaustive small-scope equivariance check (bounded) for the rest', '5/C04'),
+ 'C14': ('exploration',
+         'Partly deductive: Lean proofs over the extracted real source that the given-partition values of modularity_und, modularity_dir (label_invariant under injective g; depends on the partition only) and '
+         'modularity_und_sign (5 qtypes, relative to the rank contract of np.unique and free node degrees) are invariant under renaming of labels — 9 theorems. participation_coef(_sign), '
+         'module_degree_zscore, diversity_coef_sign, partition_distance (symmetry, identity, range), agreement, ci2ls/ls2ci are BOUNDED only (all partitions n<=5 x relabellings incl. zero-based, '
+         'non-contiguous, negative). gateway_coef_sign is a known finding.',
+         BND_NOTE % 'C14' + LX, 'Lean label-invariance proofs for the modularity values; relabelling on all partitions of small node sets (bounded) for the other consumers', '5/C14'),
 }
-for _pid in ['C03', 'C04', 'C08', 'C09', 'C10', 'C14', 'C16', 'C18', 'C19', 'C20']:
+for _pid in ['C03', 'C08', 'C16', 'C18', 'C19', 'C20']:
     CLAIMS[_pid] = ('exploration', BND + 'See DESIGN.md section 5/%s for the clauses and why the deductive tier does not (yet) reach them.' % _pid,
                     BND_NOTE % _pid, 'runtime contracts on the real code over exhaustive small scopes (bounded stand-in)', '5/' + _pid)
 NOT_YET = 'check not built yet in this round (see DESIGN.md section 10); no claim is made'
@@ -128,7 +156,7 @@ def main():
         'engines': [
             {'name': 'pyvc', 'path': 'engine/pyvc', 'serves_properties': ['C01', 'C02', 'C06', 'C07', 'C11', 'C12', 'C15', 'C17'], 'kind_free_text': 'AST -> verification conditions -> z3/cvc5 over the real source, sidecar contracts (deductive, unbounded)'},
             {'name': 'pyframe', 'path': 'engine/pyframe', 'serves_properties': ['C05', 'C13'], 'kind_free_text': 'static frame (mutation/alias) and effect (RNG) obligations over the real AST'},
-            {'name': 'lean', 'path': 'engine/lean', 'serves_properties': [], 'kind_free_text': 'Lean 4 + Mathlib lemma library for finite sums/modularity identities'},
+            {'name': 'lean', 'path': 'engine/lean', 'serves_properties': ['C01', 'C02', 'C04', 'C06', 'C07', 'C09', 'C10', 'C11', 'C14', 'C15'], 'kind_free_text': 'Lean 4 + Mathlib lemma library for finite sums/modularity identities'},
             {'name': 'weave', 'path': 'engine/weave.py', 'serves_properties': sorted(CLAIMS), 'kind_free_text': 'bounded stand-in: the same contracts executed on the real functions over exhaustive small scopes with a scripted RandomState'},
         ],
         'checks': checks,
